@@ -600,3 +600,59 @@ TRUSTED = [
     "oracle: SQLite's documented operator precedence table; all binary levels left-associative",
     "sqlparser's Display prints BinaryOp as `left op right`, IsNull as `x IS NULL`, Nested as `(x)` without adding parentheses of its own",
 ]
+
+
+# ----------------------------------------------------------------------------- thorough tier: witness sweep on the real compiler + SQLite
+SWEEP_DOC = ("for every (outer operator, inner operator, side) over + - * / % == != < > <= >= && || and unary minus: the PRQL expression with explicit "
+             "parentheses is compiled by the real prqlc for sql.sqlite, evaluated by SQLite on three rows of integers, and compared with the value of the "
+             "PRQL expression tree (the oracle of NP2: the emitted text must re-parse to the same tree)")
+
+_OPS = [("+", lambda a, b: a + b), ("-", lambda a, b: a - b), ("*", lambda a, b: a * b), ("/", lambda a, b: a / b),
+        # SQLite's % casts both operands to INTEGER (truncation) and takes the remainder with the sign of the dividend
+        ("%", lambda a, b: int(__import__("math").fmod(int(a), int(b)))),
+        ("==", lambda a, b: int(a == b)), ("!=", lambda a, b: int(a != b)), ("<", lambda a, b: int(a < b)), (">", lambda a, b: int(a > b)),
+        ("<=", lambda a, b: int(a <= b)), (">=", lambda a, b: int(a >= b)),
+        ("&&", lambda a, b: int(bool(a) and bool(b))), ("||", lambda a, b: int(bool(a) or bool(b)))]
+
+
+def sweep():
+    import replaylib
+    rows = [(7, 3, 2), (2, 5, 3), (-4, 3, 9)]
+    setup = "create table t(a integer, b integer, c integer);" + "".join("insert into t values(%d,%d,%d);" % r for r in rows)
+    out = []
+    for (o1, f1) in _OPS:
+        items, meta = [], []
+        for (o2, f2) in _OPS:
+            items.append("(a %s b) %s c" % (o2, o1)); meta.append((o2, "L", lambda a, b, c, f1=f1, f2=f2: f1(f2(a, b), c)))
+            items.append("a %s (b %s c)" % (o1, o2)); meta.append((o2, "R", lambda a, b, c, f1=f1, f2=f2: f1(a, f2(b, c))))
+        items.append("-(a %s b)" % o1); meta.append(("neg", "U", lambda a, b, c, f1=f1: -f1(a, b)))
+        items.append("(-a) %s b" % o1); meta.append(("neg", "L", lambda a, b, c, f1=f1: f1(-a, b)))
+        prql = "from t\nselect {%s}\n" % ", ".join("v%d = %s" % (i, e) for i, e in enumerate(items))
+        ok, sql = replaylib.compile_prql(prql, "sql.sqlite")
+        if not ok:
+            out.append({"obligation": "sql_prec.NP2.sweep", "input": prql, "failing": "PANIC" in sql, "expected": "compiles", "observed": sql[:400]})
+            continue
+        ok2, got = replaylib.sqlite_rows(setup, sql)
+        if not ok2:
+            out.append({"obligation": "sql_prec.NP2.sweep", "input": prql, "failing": True, "expected": "SQL that SQLite executes", "observed": str(got)[:400],
+                        "replay_kind": "none"})
+            continue
+        for i, (o2, side, f) in enumerate(meta):
+            bad = None
+            for r, g in zip(rows, got):
+                try:
+                    exp = f(*r)
+                except (ZeroDivisionError, ValueError):
+                    continue
+                obs = g[i]
+                if obs is None or abs(float(obs) - float(exp)) > 1e-9:
+                    bad = (r, exp, obs)
+                    break
+            out.append({"obligation": "sql_prec.NP2.%s.%s.%s" % (_NAME.get(o1, o1), _NAME.get(o2, o2), side), "input": "from t | select {v = %s}" % items[i],
+                        "failing": bad is not None, "expected": None if bad is None else "%r on row %r" % (bad[1], bad[0]),
+                        "observed": None if bad is None else repr(bad[2]), "replay_kind": "none"})
+    return out
+
+
+_NAME = {"+": "Plus", "-": "Minus", "*": "Multiply", "/": "Divide", "%": "Modulo", "==": "Eq", "!=": "NotEq", "<": "Lt", ">": "Gt", "<=": "LtEq", ">=": "GtEq",
+         "&&": "And", "||": "Or", "neg": "Neg"}
